@@ -90,6 +90,10 @@ ARGS = [
     "(current-input-port)", "(current-output-port)", "(eof-object)", "(if #f #f)", "CUR-OTHER", "(string-cursor-start S5)", "(string-cursor-end SU)", "(interaction-environment)",
     "(list 1 2.5 \"s\" #\\c)", "(vector 'a (vector 'b))", "(make-vector 10 0)", "(make-bytevector 10 7)", "(string->symbol \"\")",
 ]
+_STR, _VEC, _BV, _LST = ["S0", "S5", "SU", '(make-string 3 #\\x1F600)'], ["V0", "V3", "(make-vector 10 0)"], ["BV0", "BV4", "(make-bytevector 10 7)", "#u8(1 2)"], ["L3", "'()", "LIMP"]
+RANGE_PROCS = {"substring": _STR, "string-copy": _STR, "string->list": _STR, "string->vector": _STR, "string->utf8": _STR, "string-fill!": _STR, "string-copy!": _STR,
+               "write-string": _STR, "vector->list": _VEC, "vector-copy": _VEC, "vector-fill!": _VEC, "vector->string": _VEC, "vector-copy!": _VEC,
+               "bytevector-copy": _BV, "utf8->string": _BV, "write-bytevector": _BV, "bytevector-copy!": _BV, "list-tail": _LST, "list-ref": _LST, "list-copy": _LST}
 NUMERIC_PROCS = set(PROCS[:PROCS.index("not")])
 NUM_ARGS = ARGS[:ARGS.index("#t")]
 CYCLIC_ARGS = {"CYC"}
@@ -138,10 +142,19 @@ def gen_form(rng, light=False):
             src = "(symbol? 'a%s)" % "".join(rng.choice("abc-!?*<>=/+0") for _ in range(edge))
         return {"src": src, "kind": "long-token"}
     if k == "hostile":
-        proc = rng.choice(PROCS)
+        proc = rng.choice(PROCS) if not rng.chance(1, 6) else rng.choice(sorted(RANGE_PROCS))
         nargs = rng.weighted([(0, 1), (1, 5), (2, 6), (3, 4), (4, 1)])
         args = [rng.choice(ARGS) for _ in range(nargs)]
-        if proc in NUMERIC_PROCS and rng.chance(1, 2):
+        if proc in RANGE_PROCS and rng.chance(1, 2):
+            # (container [fill] start end) procedures: the right kind of container with start/end from the boundary lattice around its length
+            cont = rng.choice(RANGE_PROCS[proc])
+            idx = lambda: rng.choice(["-1", "0", "1", "2", "3", "4", "5", "6", "255", "65536", "4611686018427387903", "1.0", "'x"])  # noqa
+            args = [cont] + [idx() for _ in range(rng.range(0, 2))]
+            if proc in ("vector-fill!", "string-fill!", "bytevector-fill!"):
+                args = [cont, {"vector-fill!": "'z", "string-fill!": "#\\z", "bytevector-fill!": "7"}[proc]] + args[1:]
+            if proc in ("string-copy!", "vector-copy!", "bytevector-copy!"):
+                args = [cont, idx(), rng.choice(RANGE_PROCS[proc])] + args[1:]
+        elif proc in NUMERIC_PROCS and rng.chance(1, 2):
             # numeric procedures: every combination of number kinds (fixnum limits, bignums, ratios, signed zeros, infinities, NaN, complex)
             args = [rng.choice(NUM_ARGS) for _ in range(nargs)]
         if proc == "dynamic-wind" and len(args) >= 3:
